@@ -234,6 +234,28 @@ def core_show_bytes(b):
     return "#%d:%016x" % (len(b), h)
 
 
+def geom_data(rng, n, uniq=24, ratio=0.75):
+    """bytes with geometrically decreasing frequencies (deep Huffman codes) and, at a random offset, a run of `uniq`
+    values that occur nowhere else"""
+    vals = list(range(256))
+    for i in range(255, 0, -1):
+        j = rng.below(i + 1)
+        vals[i], vals[j] = vals[j], vals[i]
+    common = vals[:200]
+    ones = vals[200:200 + uniq]
+    # inverse-CDF sampling of a geometric distribution over `common`
+    import math
+    out = bytearray()
+    lr = math.log(ratio)
+    for _ in range(n):
+        u = (rng.below(1 << 30) + 1) / float((1 << 30) + 1)
+        kx = int(math.log(u) / lr)
+        out.append(common[min(kx, len(common) - 1)])
+    at = rng.range(1000, max(1001, n - 1000))
+    out[at:at] = bytes(ones)
+    return bytes(out[:n + uniq])
+
+
 def data_classes(rng, n):
     """byte strings of length n of several content classes"""
     k = rng.below(8)
@@ -543,6 +565,19 @@ def c09_cases(ctx):
             data = rng.bytes(rng.choice([40000, 100000, 150000]))
             ctx.add("z%d" % n, ["in %s" % hx(data), "cparams 0 %d 0 15" % level, "cdrive @ 100000000:%d:%d" % (osz, rng.choice([0, 4]))],
                     kind="zstream", data=data, wb=15)
+    # the framing of a stream written after reset(): an abandoned earlier stream (blocks flushed off a byte boundary,
+    # pending output, an open block) must leave nothing behind in the header or the trailer
+    for j in range(24 if ctx.tier == "quick" else 200):
+        n += 1
+        first = data_classes(rng, rng.choice([48, 60, 100, 300, 5000, 40000]))
+        data = data_classes(rng, rng.choice([0, 1, 300, 5000]))
+        level, strat, wb = rng.choice([1, 2, 6, 9]), rng.choice([0, 0, 1, 4]), rng.choice([15, 15, 12, 9])
+        hist = []
+        for _ in range(rng.range(1, 3)):
+            hist.append("ccall %s %d %d" % (hx(first[:rng.range(48, max(49, len(first)))] if len(first) >= 48 else first), rng.choice([3, 50, 200000]),
+                                           rng.choice([7, 7, 1, 5, 0, 2])))
+        ctx.add("z%d" % n, ["in %s" % hx(data), "cparams 0 %d %d %d" % (level, strat, wb)] + hist + ["creset", "cdrive @ 100000000:200000:4"],
+                model=False, kind="zstream", data=data, wb=wb)
     # decode side: trailer / body corruption
     for i in range(60 if ctx.tier == "quick" else 400):
         data = data_classes(rng, rng.choice([1, 20, 400, 40000]))
@@ -575,7 +610,7 @@ def c09_eval(ctx):
     for cid, ops in ctx.cases:
         m = ctx.meta[cid]
         if m["kind"] == "zstream":
-            f = parse_fields(ctx.impl.get((cid, 3), ("", ""))[1])
+            f = parse_fields(ctx.impl.get((cid, len(ops)), ("", ""))[1])
             full = f.get("full", "-")
             oq.append((cid, ["in %s" % hx(m["data"]), "sinflate 1 %s" % full, "adler 1 @"]))
     orc = oracle_run(ctx, oq)
@@ -585,7 +620,7 @@ def c09_eval(ctx):
             if not res:
                 continue
             if m["kind"] == "zstream":
-                f = parse_fields(res.get((cid, 3), ("", ""))[1])
+                f = parse_fields(res.get((cid, len(ops)), ("", ""))[1])
                 full = f.get("full", "-")
                 if f.get("st") != "1" or full == "-" or len(full) < 12:
                     fails.append((cid, "%s: zlib compression did not finish: %s" % (tag, str(f)[:200])))
